@@ -917,6 +917,216 @@ def routing_stream(ctx, mods, checks, n_cases):
             ctx.count(stream + ':relation', [g, before, mp, rec['lookahead'], mapping], n_swaps + n_blocks > 0)
 
 
+
+# ---------------------------------------------------------------- devices and the mapping manager
+class QubitTable:
+    def __init__(self):
+        self.qs = []
+
+    def __call__(self, q):
+        if q not in self.qs:
+            self.qs.append(q)
+        return self.qs.index(q)
+
+
+def device_op_pool(mods, rng, qubits):
+    """Operations on random qubits of `qubits` (a list that also contains qubits outside the device)."""
+    cirq, cg = mods['cirq'], mods['cirq_google']
+    e = lambda: gates.draw_exp(rng)
+    gs = [cirq.X, cirq.X ** 0.5, cirq.Z ** e(), cirq.H, cirq.CZ, cirq.CZ, cirq.CZ ** 0.5, cirq.CZ ** 2, cirq.CNOT, cirq.SWAP, cirq.ISWAP, cirq.SQRT_ISWAP,
+          cirq.XX ** e(), cirq.ZZ ** e(), cirq.PhasedXPowGate(phase_exponent=e(), exponent=e()), cirq.PhasedXZGate(x_exponent=e(), z_exponent=e(), axis_phase_exponent=e()),
+          cirq.CCZ, cirq.CCX, cirq.MeasurementGate(1, 'a'), cirq.MeasurementGate(2, 'b'), cirq.MeasurementGate(3, 'c'), cirq.I, cirq.MatrixGate(gates.random_unitary(rng, 2)),
+          cirq.MatrixGate(gates.random_unitary(rng, 4)), cirq.ParallelGate(cirq.H, 2), cirq.WaitGate(cirq.Duration(nanos=5), num_qubits=2), cirq.WaitGate(cirq.Duration(nanos=5)),
+          cirq.Y ** e(), cirq.CZ ** 3, cirq.CNOT ** 2]
+    g = rng.choice(gs)
+    n = cirq.num_qubits(g)
+    op = g.on(*rng.sample(qubits, n))
+    r = rng.random()
+    if r < 0.12:
+        op = op.with_tags(rng.choice(['t', cg.PhysicalZTag(), NC_TAG]))
+    elif r < 0.17 and n <= 2:
+        op = cirq.CircuitOperation(cirq.FrozenCircuit(op))
+    elif r < 0.2 and not cirq.is_measurement(op):
+        op = op.with_classical_controls('a')
+    return op
+
+
+def spec_accepts(cirq, kind, op, gateset, qubit_set, pairs, variadic, cgs=None):
+    """The property's statement, evaluated on the real objects: in the gateset, on the device's qubits, on allowed pairs."""
+    if kind in ('aqt', 'pasqal', 'pasqal_virtual') and not isinstance(op, cirq.GateOperation):
+        return False, 'not a gate operation'
+    if kind == 'ionq' and op.gate is None:
+        return False, 'no gate'
+    in_gs = (op.gate in gateset) if kind == 'aqt' else (op in gateset)
+    if not in_gs:
+        return False, 'not in gateset'
+    if any(q not in qubit_set for q in op.qubits):
+        return False, 'qubit not on device'
+    if kind == 'grid' and len(op.qubits) == 2 and not isinstance(op.gate, variadic) and frozenset(op.qubits) not in pairs:
+        return False, 'pair not allowed'
+    if kind == 'pasqal_virtual' and op in cgs and any(a != b and frozenset((a, b)) not in pairs for a in op.qubits for b in op.qubits):
+        return False, 'pair not allowed'
+    return True, 'accepted'
+
+
+def device_stream(ctx, mods, n_specs, ops_per_spec):
+    cirq, cg, ci, ca, cp = mods['cirq'], mods['cirq_google'], mods['cirq_ionq'], mods['cirq_aqt'], mods['cirq_pasqal']
+    rng = ctx.rng
+    GF = cirq.GateFamily
+    pool = [cirq.CZ, cirq.CZPowGate, cirq.XPowGate, cirq.ZPowGate, cirq.PhasedXZGate, cirq.MeasurementGate, cirq.SQRT_ISWAP, GF(cirq.ZPowGate, tags_to_accept=[cg.PhysicalZTag()]),
+            cirq.ISWAP, cirq.WaitGate, cirq.IdentityGate, cirq.AnyIntegerPowerGateFamily(cirq.CZPowGate), cirq.SWAP, cirq.CCZPowGate, cirq.PhasedXPowGate, cirq.CNOT, cirq.MatrixGate]
+    shards = []
+    for si in range(n_specs):
+        kind = ['grid', 'grid', 'grid', 'aqt', 'pasqal', 'pasqal_virtual', 'ionq'][si % 7]
+        qt = QubitTable()
+        cgs = None
+        if kind == 'grid':
+            allq = [cirq.GridQubit(r, c) for r in range(2) for c in range(3)]
+            dq = sorted(rng.sample(allq, rng.randint(3, 6)))
+            adj = [(a, b) for a in dq for b in dq if a < b and a.is_adjacent(b)]
+            pairs = [p for p in adj if rng.random() < 0.7]
+            gateset = cirq.Gateset(*rng.sample(pool, rng.randint(3, 9)), unroll_circuit_op=rng.random() < 0.7)
+            try:
+                device = cg.GridDevice._from_device_information(qubit_pairs=pairs, gateset=gateset, all_qubits=dq)
+            except Exception as e:
+                ctx.mark_broken('harness:grid-device', f'{type(e).__name__}: {e}')
+                continue
+            cand = allq + [cirq.GridQubit(5, 5), cirq.LineQubit(0)]
+            rule = 'PairsTwoQubit'
+            pairset = {frozenset(p) for p in device.metadata.qubit_pairs}
+            qubit_set = set(device.metadata.qubit_set)
+            gs_obj = device.metadata.gateset
+            gate_only = False
+        elif kind == 'aqt':
+            dq = cirq.LineQubit.range(rng.randint(2, 4))
+            device = ca.aqt_device.AQTDevice(cirq.Duration(micros=1), cirq.Duration(micros=1), cirq.Duration(micros=1), dq)
+            cand = cirq.LineQubit.range(6) + [cirq.NamedQubit('x')]
+            rule, pairset, qubit_set, gs_obj, gate_only = 'PairsNone', set(), set(dq), device.metadata.gateset, True
+        elif kind == 'pasqal':
+            dq = [cirq.NamedQubit(f'a{i}') for i in range(rng.randint(2, 4))]
+            device = cp.PasqalDevice(dq)
+            cand = dq + [cirq.NamedQubit('zz'), cirq.NamedQubit('yy'), cirq.LineQubit(0)]
+            rule, pairset, qubit_set, gs_obj, gate_only = 'PairsNone', set(), set(dq), device.gateset, True
+        elif kind == 'pasqal_virtual':
+            allq = [cirq.GridQubit(r, c) for r in range(2) for c in range(3)]
+            dq = sorted(rng.sample(allq, rng.randint(3, 6)))
+            radius = rng.choice([1.0, 1.5, 2.0, 2.3])
+            device = cp.PasqalVirtualDevice(radius, dq)
+            cand = allq + [cirq.GridQubit(4, 4)]
+            pairset = {frozenset((a, b)) for a in dq for b in dq if a != b and math.hypot(a.row - b.row, a.col - b.col) <= radius}
+            cgs = device.controlled_gateset
+            rule, qubit_set, gs_obj, gate_only = 'PairsIn', set(dq), device.gateset, True
+        else:
+            nq = rng.randint(2, 4)
+            device = ci.IonQAPIDevice(nq)
+            dq = cirq.LineQubit.range(nq)
+            cand = cirq.LineQubit.range(6)
+            rule, pairset, qubit_set, gs_obj, gate_only = 'PairsNone', set(), set(dq), device.gateset, False
+        d = Describer(cirq)
+        try:
+            gterm = d.gateset(gs_obj)
+            rterm = f'(PairsIn {d.gateset(cgs)})' if rule == 'PairsIn' else rule
+        except Unmodelled as e:
+            ctx.mark_broken('model:gateset-family', f'device {kind}: {e}')
+            continue
+        dterm = (f'(mkDev {gterm} {gates.nlist([qt(q) for q in qubit_set and sorted(qubit_set)])} '
+                 f'[{"; ".join(f"({qt(a)}, {qt(b)})%nat" for a, b in (tuple(sorted(p)) for p in sorted(pairset, key=lambda p: sorted(p))))}] {rterm} {"true" if gate_only else "false"})')
+        rows, meta = [], []
+        acc_ops = []
+        for _ in range(ops_per_spec):
+            op = device_op_pool(mods, rng, cand)
+            if kind in ('pasqal', 'pasqal_virtual') and isinstance(op.gate, cirq.MeasurementGate) and op.gate.invert_mask != ():
+                continue
+            try:
+                device.validate_operation(op)
+                got = True
+            except ValueError:
+                got = False
+            except Exception as e:
+                got = type(e).__name__
+            want, why = spec_accepts(cirq, kind, op, gs_obj, qubit_set, pairset, (cirq.MeasurementGate, cirq.WaitGate), cgs)
+            ctx.count(f'device:{kind}', [kind, repr(sorted(qubit_set)), repr(sorted(map(sorted, pairset))), repr(gs_obj)[:400], repr(op)[:300]], True,
+                      sample=dict(device=kind, op=repr(op)[:100], accepted=got, spec=why) if rng.random() < 0.03 else None)
+            if got is not want:
+                clause = why.replace(' ', '-')
+                ctx.violation(f'device:{kind}:{"accepts" if got is True else "rejects"}:{clause}',
+                              f'{kind} device validate_operation({repr(op)[:160]}) {"accepts" if got is True else "rejects (" + str(got) + ")"} although the operation is: {why}',
+                              dict(kind='device', device=kind, qubits=repr(sorted(qubit_set)), pairs=repr(sorted(map(sorted, pairset))), gateset=repr(gs_obj),
+                                   unroll=bool(gs_obj._unroll_circuit_op), radius=radius if kind == 'pasqal_virtual' else None, op=repr(op)))
+            opd = f'(OGate {d.gate(op.gate)} [])' if kind == 'aqt' and op.gate is not None else d.op(op)
+            dop = f'(mkDop {opd} {gates.nlist([qt(q) for q in op.qubits])} {"true" if isinstance(op, cirq.GateOperation) else "false"})'
+            # the model follows the property's statement; for the IonQ device the recorded finding is the only allowed difference
+            rows.append(f'Bool.eqb (device_accepts DEV {dop}) {"true" if want else "false"}')
+            meta.append((kind, op, f'device answers {got}, statement says {why}'))
+            if got is True:
+                acc_ops.append((op, dop))
+        if kind == 'grid' and acc_ops:
+            # validate_circuit: all accepted operations together / with one rejected operation added
+            ops_ok = [o for o, _ in acc_ops[:4]]
+            try:
+                device.validate_circuit(cirq.Circuit(ops_ok, strategy=cirq.InsertStrategy.NEW))
+                got = True
+            except ValueError:
+                got = False
+            rows.append(f'Bool.eqb (device_accepts_circuit DEV [{"; ".join(t for _, t in acc_ops[:4])}]) {"true" if got else "false"}')
+            meta.append((kind, ops_ok, f'validate_circuit -> {got}'))
+            ctx.count('device:grid:circuit', [repr(ops_ok)[:600], repr(sorted(qubit_set))], True)
+        shards.append((f'Definition DEV := {dterm}.\nDefinition checks : list bool := [\n' + ';\n'.join(rows) + '].\nEval vm_compute in failing (fun b => b) checks.\n', meta))
+    outs = coq.coq_eval_many([(f'c07d_{ctx.seed}_{i}', GS_PRE + text) for i, (text, _) in enumerate(shards)], workers=12)
+    for (text, meta), out in zip(shards, outs):
+        for idx in coq.parse_nat_list(coq.parse_evals(out)[0]):
+            kind, op, ans = meta[idx]
+            ctx.mark_broken('correspondence:device-model', f'{kind}: the device model disagrees with the statement evaluated on the real objects for {repr(op)[:300]} ({ans})')
+
+
+def mapping_manager_stream(ctx, mods, n_cases):
+    """The real MappingManager against the model: arrays after __init__ and after every prefix of a random swap sequence."""
+    cirq = mods['cirq']
+    from cirq.transformers.routing import mapping_manager
+    rng = ctx.rng
+    rows, meta = [], []
+    for _ in range(n_cases):
+        g = gen_graph(mods, rng, big=rng.random() < 0.5)
+        G, phys = nx_graph(cirq, g)
+        n = len(phys)
+        k = rng.randint(2, n)
+        # a connected set of k physical qubits (grown along undirected edges), logical qubits in random order
+        und = G.to_undirected()
+        chosen = [rng.choice(phys)]
+        while len(chosen) < k:
+            frontier = sorted({w for v in chosen for w in und.neighbors(v) if w not in chosen})
+            chosen.append(rng.choice(frontier))
+        logical = [cirq.LineQubit(100 + i) for i in range(k)]
+        rng.shuffle(logical)
+        init = dict(zip(logical, chosen))
+        mm = mapping_manager.MappingManager(G, init)
+        l2p0 = [mm.physical_qid_to_int[init[q]] for q in mm.int_to_logical_qid]
+        ok0 = list(mm.logical_to_physical) == l2p0
+        swaps, snaps = [], []
+        for _s in range(rng.randint(1, 8)):
+            a = rng.randrange(k)
+            nb = [b for b in range(k) if b != a and mm.dist_on_device(a, b, undirected=True) == 1]
+            if not nb:
+                continue
+            b = rng.choice(nb)
+            mm.apply_swap(a, b)
+            swaps.append((a, b))
+            snaps.append((list(map(int, mm.logical_to_physical)), list(map(int, mm.physical_to_logical))))
+        ctx.count('mapping_manager', [g, repr(init), swaps], len(swaps) >= 2, sample=dict(graph=g['kind'], qubits=k, swaps=swaps))
+        real_inverse = all(int(mm.physical_to_logical[int(mm.logical_to_physical[i])]) == i for i in range(k))
+        if not real_inverse or not ok0:
+            ctx.violation('mapping_manager:inverse', f'MappingManager arrays are no longer inverse to each other after swaps {swaps} (initial mapping {init})',
+                          dict(kind='mapping_manager', graph=g, init=repr(init), swaps=swaps))
+        sw = '[' + '; '.join(f'({a}, {b})%nat' for a, b in swaps) + ']'
+        l2p_f, p2l_f = snaps[-1] if snaps else (l2p0, [int(x) for x in mm.physical_to_logical])
+        rows.append(f'(let m := apply_swaps (mm_init {gates.nlist(l2p0)}) {sw} in Routing.nl_eqb (l2p m) {gates.nlist(l2p_f)} && Routing.nl_eqb (p2l m) {gates.nlist(p2l_f)} && mm_ok_b {k} m)')
+        meta.append((g, init, swaps))
+    out = coq.coq_eval(f'c07mm_{ctx.seed}', PRE + 'Definition checks : list bool := [\n' + ';\n'.join(rows) + '].\nEval vm_compute in failing (fun b => b) checks.\n')
+    for idx in coq.parse_nat_list(coq.parse_evals(out)[0]):
+        g, init, swaps = meta[idx]
+        ctx.mark_broken('correspondence:mapping_manager', f'MappingManager arrays differ from the model after swaps {swaps} (initial mapping {init})')
+
+
 # ---------------------------------------------------------------- evaluation
 def evaluate(ctx, mods, checks, confirm):
     """checks: (stream, expr, desc, rep). Shards by size; a failing expression is confirmed on the real code by `confirm`."""
@@ -971,13 +1181,59 @@ def run(ctx):
     membership_stream(ctx, mods, n)
     compile_stream(ctx, mods, checks, 8 * n)
     routing_stream(ctx, mods, checks, 90 * n)
+    mapping_manager_stream(ctx, mods, 60 * n)
+    device_stream(ctx, mods, 28 * n, 40)
     evaluate(ctx, mods, checks, confirm)
+
+
+def py_eval(mods, text):
+    import sympy
+    return eval(text, dict(cirq=mods['cirq'], cirq_google=mods['cirq_google'], cirq_ionq=mods['cirq_ionq'], cirq_aqt=mods['cirq_aqt'],
+                           cirq_pasqal=mods['cirq_pasqal'], np=np, sympy=sympy, frozenset=frozenset))
+
+
+def replay_device(mods, data):
+    cirq, cg, ci, ca, cp = mods['cirq'], mods['cirq_google'], mods['cirq_ionq'], mods['cirq_aqt'], mods['cirq_pasqal']
+    kind = data['device']
+    qubits = py_eval(mods, data['qubits'])
+    pairs = {frozenset(p) for p in py_eval(mods, data['pairs'])}
+    op = py_eval(mods, data['op'])
+    cgs = None
+    if kind == 'grid':
+        gateset = py_eval(mods, data['gateset'])
+        device = cg.GridDevice._from_device_information(qubit_pairs=[tuple(sorted(p)) for p in pairs], gateset=gateset, all_qubits=qubits)
+        gs_obj = device.metadata.gateset
+    elif kind == 'aqt':
+        device = ca.aqt_device.AQTDevice(cirq.Duration(micros=1), cirq.Duration(micros=1), cirq.Duration(micros=1), qubits)
+        gs_obj = device.metadata.gateset
+    elif kind == 'pasqal':
+        device = cp.PasqalDevice(qubits)
+        gs_obj = device.gateset
+    elif kind == 'pasqal_virtual':
+        device = cp.PasqalVirtualDevice(data['radius'], qubits)
+        gs_obj, cgs = device.gateset, device.controlled_gateset
+    else:
+        device = ci.IonQAPIDevice(len(qubits))
+        gs_obj = device.gateset
+    try:
+        device.validate_operation(op)
+        got = True
+    except ValueError:
+        got = False
+    want, why = spec_accepts(cirq, kind, op, gs_obj, set(qubits), pairs, (cirq.MeasurementGate, cirq.WaitGate), cgs)
+    print(f'replay: device answers {got}; the statement says {why}')
+    return got is want
 
 
 def replay(ctx, data):
     mods = env.import_cirq(('cirq_google', 'cirq_ionq', 'cirq_aqt', 'cirq_pasqal'))
     if data.get('kind') == 'broken':
         print('replay: this file names obligations/correspondences that no longer check; re-run ./check C07')
+        return False
+    if data.get('kind') == 'device':
+        return replay_device(mods, data)
+    if data.get('kind') in ('membership', 'mapping_manager'):
+        print('replay: re-run `VERIF_SEED=%s ./check C07` (the case is one row of a model evaluation): %s' % (data.get('seed'), data.get('item') or data.get('swaps')))
         return False
     holds, detail, sig, _ = confirm(mods, data)
     print('replay:', detail, sig or '')
